@@ -2458,6 +2458,22 @@ impl Transport {
         )
     }
 
+    /// Identity `(session id, message counter, exchange id, peer)` of the message waiting in the
+    /// RX slot, if any (and if nobody holds the slot right now).
+    pub fn verif_rx_waiting(&self) -> Option<(u16, u32, u16, Address)> {
+        self.rx
+            .try_lock_if(|packet| !packet.buf.is_empty())
+            .ok()
+            .map(|packet| {
+                (
+                    packet.header.plain.sess_id,
+                    packet.header.plain.ctr,
+                    packet.header.proto.exch_id,
+                    packet.peer,
+                )
+            })
+    }
+
     /// `(mDNS resolve rendezvous idle, mDNS browse rendezvous idle)`
     pub fn verif_mdns_rendezvous_idle(&self) -> (bool, bool) {
         (
